@@ -121,7 +121,8 @@ func verifCM(args []string) string {
 //	e<now>                   inner.removeExpired(now, timeout)       (the sweeper's body)
 //
 // After every operation the whole map is printed: every live record (address, last seen, queue
-// identity, queue contents) and every closed queue with the number of packets left in it.
+// identity, queue contents) and the identities of the closed queues.  A receive on a queue that
+// is no longer in the map answers D when the channel is closed (whatever is left in it).
 
 func verifQPrint(q [][]byte) string {
 	hx := func(p []byte) string { return "x" + wire.Hex(p) }
@@ -250,9 +251,9 @@ func verifQM(args []string) string {
 				}
 			}
 			if closed[id] {
-				dead = append(dead, strconv.Itoa(id)+":"+strconv.Itoa(len(rest[id])))
+				dead = append(dead, strconv.Itoa(id))
 			} else {
-				dead = append(dead, strconv.Itoa(id)+":"+strconv.Itoa(len(rest[id]))+"!open")
+				dead = append(dead, strconv.Itoa(id)+"!open")
 			}
 		}
 		return verifOrE(ls) + "/" + verifOrE(dead)
@@ -324,13 +325,11 @@ func verifQM(args []string) string {
 			case k >= len(queues):
 				res = "B" // never handed out: not a channel anybody holds
 			case gone[k]:
-				if len(rest[k]) > 0 {
-					res = "x" + wire.Hex(rest[k][0])
-					rest[k] = rest[k][1:]
-				} else if closed[k] {
-					res = "C"
+				// a discarded queue: what is left in it is not part of the property
+				if closed[k] {
+					res = "D"
 				} else {
-					res = "B"
+					res = "O"
 				}
 			default:
 				select {
